@@ -17,7 +17,8 @@ h2 <name> <value>               -> ok <name bytes> <value bytes> | err <Exc>
 parse <bytes>                   -> none | m=… t=… h=… frame=<kind|none> payload=…
 ```
 body: `N` | `B/<bytes>` | `S/<str>` | `U/<itemsize>/<bytes>` | `F/<text01>/<seek>/<tell>/<pos>/<content>`
-| `I/<oneshot01>/<chunk,chunk,…>` with chunk `b:<bytes>` | `s:<str>` | `u:<itemsize>:<bytes>`;
+| `R/<text01>/<seek>/<tell>/<pos>/<piece,piece,…>` (read script of a stream, `~` = no piece; `F/…/<content>` is the
+script `[content]`) | `I/<oneshot01>/<chunk,chunk,…>` with chunk `b:<bytes>` | `s:<str>` | `u:<itemsize>:<bytes>`;
 outcomes: letters `c r s k t o`. -/
 namespace U3.Drive.Wire
 open U3 U3.Proto U3.Wire
@@ -61,8 +62,11 @@ def body? (tok : String) : Option Body :=
   | ["B", x] => (str? x).map .bytes
   | ["S", x] => (str? x).map .str
   | ["U", k, x] => do pure (.buffer (← str? x) (← k.toNat?))
-  | ["F", tx, sk, tl, pos, c] => do
-    pure (.file ⟨← str? c, ← pos.toNat?, ← avail? sk, ← avail? tl, ← bool? tx⟩)
+  | ["F", tx, sk, tl, pos, c] => do          -- a regular file: the one-piece read script
+    pure (.file ⟨[← str? c], ← pos.toNat?, ← avail? sk, ← avail? tl, ← bool? tx⟩)
+  | ["R", tx, sk, tl, pos, ps] => do         -- a stream given by its read script
+    let ps ← if ps == "~" then some [] else (ps.splitOn ",").mapM str?
+    pure (.file ⟨ps, ← pos.toNat?, ← avail? sk, ← avail? tl, ← bool? tx⟩)
   | ["I", one, cs] => do
     let cs ← if cs == "-" then some [] else (cs.splitOn ",").mapM chunk?
     pure (.iter cs (← bool? one))
